@@ -16,7 +16,7 @@ LEVEL_TEXT = ("Static structural proof of necessary conditions: (R14.1) the 17 s
               "(schema, entry, attribute) call made by the runner; (R14.3) the three per-section passes iterate the "
               "section enum itself; (R14.4) error-context push/pop balanced. That released schemas pass and that a "
               "seeded fault is detected at every position are NOT decided.")
-LEVEL_EXTRA = "Added after the seeded evaluation: (R14.5) known/unknown of an attribute is decided against the valid-attribute table of the entry's own section. (R14.6) no issue list is discarded inside the compliance modules. (R14.7) attribute validators are skipped for attributes the entry's section does not declare."
+LEVEL_EXTRA = "Added after the seeded evaluation: (R14.5) known/unknown of an attribute is decided against the valid-attribute table of the entry's own section. (R14.6) no issue list is discarded inside the compliance modules. (R14.7) attribute validators are skipped for attributes the entry's section does not declare. Added after the hunting pass: (R14.8) the key tested for an existing tag is one of the registered forms (a known finding today: repeated '#' children); (R14.9) per-library tables are consulted with the entry's own inLibrary value; (R14.10) NaN takes the conversion-factor report; (R14.11) the character pass guards the str use of raw attribute values."
 
 SIG = ["hed_schema", "tag_entry", "attribute_name"]
 
@@ -270,3 +270,178 @@ def run(ctx):
                   "(already reported as unknown); they use members only some entry kinds have (%s), so e.g. `defaultUnits` seeded on a "
                   "tag makes check_compliance raise AttributeError instead of reporting the fault" % ", ".join(sorted(specific)[:4]),
                   desc="validators skipped for attributes unknown to the entry's section")
+
+    # ---------------- R14.8: the name tested for "already defined" is one of the forms this section registers
+    ctx.rule("R14.8", "in the tag section the key tested for an existing definition is drawn from the forms that are registered")
+    from sa.dataflow import ReachingDefs, depends_on
+    tsec = prog.find_class("HedSchemaTagSection")
+    cid = tsec.methods.get("_check_if_duplicate")
+    if cid is None:
+        raise AnalysisError("anchor HedSchemaTagSection._check_if_duplicate vanished")
+    ctx.saw(cid)
+    rd8 = ReachingDefs(cid)
+    stores = []     # (for node, iter name) whose body stores self.<table>[...] = entry
+    for lp in walk_no_nested(cid.node):
+        if isinstance(lp, ast.For) and isinstance(lp.iter, ast.Name):
+            for st in ast.walk(lp):
+                if isinstance(st, ast.Assign) and any(isinstance(t, ast.Subscript) and norm(t.value).startswith("self.") for t in st.targets):
+                    stores.append((lp, lp.iter.id))
+                    break
+    tests = [c for c in walk_no_nested(cid.node) if isinstance(c, ast.Compare) and len(c.ops) == 1
+             and isinstance(c.ops[0], (ast.In, ast.NotIn)) and norm(c.comparators[0]) in ("self", "self.long_form_tags")]
+    ctx.floor("R14.8", "registration loops over the tag forms", len(stores), 1)
+    ctx.floor("R14.8", "existing-definition tests", len(tests), 1)
+    forms = {nm for _, nm in stores}
+    for c in tests:
+        stmt = c
+        pm8 = {id(ch): p for p in ast.walk(cid.node) for ch in ast.iter_child_nodes(p)}
+        while not isinstance(stmt, ast.stmt):
+            stmt = pm8[id(stmt)]
+        ok = depends_on(rd8, c.left, stmt, lambda n: isinstance(n, ast.Name) and n.id in forms)
+        why = ""
+        if not ok:
+            # the key may come out of a helper that returns (key, forms): then the helper must derive it from the forms
+            for nm in [x.id for x in ast.walk(c.left) if isinstance(x, ast.Name)]:
+                for d in rd8.at(stmt, nm) or []:
+                    if d.kind == "unpack" and isinstance(d.value, ast.Call) and d.index is not None:
+                        for (k, callee) in cg.resolve_call(d.value, cid):
+                            rdc = ReachingDefs(callee)
+                            rets = [r for r in walk_no_nested(callee.node) if isinstance(r, ast.Return)
+                                    and isinstance(r.value, ast.Tuple) and len(r.value.elts) > d.index]
+                            fidx = [i for i, t in enumerate(_unpack_names(d.node)) if t in forms]
+                            if rets and fidx and all(
+                                    depends_on(rdc, r.value.elts[d.index], r,
+                                               lambda n, r=r: isinstance(n, ast.Name) and norm(n) == norm(r.value.elts[fidx[0]]))
+                                    for r in rets):
+                                ok = True
+                            else:
+                                why = " (%s returns it independently of the forms it returns)" % callee.short
+        ctx.check(ok, "R14.8", cid.qualname, c, loc(cid, c),
+                  "the key tested for an existing tag is not one of the forms the section registers%s: a `#` placeholder is tested "
+                  "under the bare '#', which is never registered, so a second placeholder under the same parent silently replaces "
+                  "the first and no duplicate is recorded" % why,
+                  desc="duplicate test key is drawn from the registered forms")
+
+    # ---------------- R14.9: per-library tables are consulted with the entry's own library name
+    ctx.rule("R14.9", "the library name that selects id range / previous schema / known versions is the entry's own inLibrary value")
+    n_lib = 0
+    vmods = ("hed.schema.schema_attribute_validators", "hed.schema.schema_attribute_validator_hed_id")
+    for f in prog.functions.values():
+        if f.module.name not in vmods:
+            continue
+        for c in walk_no_nested(f.node):
+            if not isinstance(c, ast.Call) or not c.args or not norm(c.args[0]).endswith("InLibrary"):
+                continue
+            cn = call_name(c)
+            if cn == "get" and isinstance(c.func, ast.Attribute) and norm(c.func.value).endswith(".attributes"):
+                n_lib += 1
+                ctx.saw(f)
+                ctx.ok("R14.9", "%s reads the entry's own inLibrary value" % f.short, loc(f, c))
+            elif cn == "has_attribute":
+                rv = [kw.value for kw in c.keywords if kw.arg == "return_value"] + list(c.args[1:2])
+                if rv and isinstance(rv[0], ast.Constant) and rv[0].value is True:
+                    n_lib += 1
+                    ctx.saw(f)
+                    ctx.violation("R14.9", f.qualname, c, loc(f, c),
+                                  "the library name is read through the inherited attribute view, which for a tag below another "
+                                  "library tag is the comma-joined value of all ancestors ('score,score'): no per-library table has "
+                                  "such a key, so the id range / changed-id / version checks are silently skipped for nested library tags")
+    ctx.floor("R14.9", "library-name reads in the attribute validators", n_lib, 2)
+
+    # ---------------- R14.10: a conversion factor that is not a number greater than zero is reported (NaN included)
+    ctx.rule("R14.10", "the conversion-factor rejection test is taken by NaN (accept only through a true `> 0`)")
+    cfun = prog.find_function("schema_attribute_validators.conversion_factor")
+    ctx.saw(cfun)
+    v10 = view(ctx, cfun)
+    fvars = set()
+    for a in walk_no_nested(cfun.node):
+        if isinstance(a, ast.Assign) and isinstance(a.value, ast.Call) and call_name(a.value) == "float":
+            fvars |= {t.id for t in a.targets if isinstance(t, ast.Name)}
+    emits = [(n_, c) for (n_, c) in v10.calls(lambda c: call_name(c) == "format_error" and "CONVERSION_FACTOR" in norm(c))]
+    ctx.floor("R14.10", "float conversions in conversion_factor", len(fvars), 1)
+    ctx.floor("R14.10", "conversion-factor reports", len(emits), 1)
+    for n_, c in emits:
+        ok = False
+        for cond in v10.conds(lambda t: any(mentions(t, fv) for fv in fvars)):
+            for lab in (True, False):
+                if v10.edge_guards(cond, lab, n_) and _nan_outcomes(cond.ast, fvars) == {lab}:
+                    ok = True
+        ctx.check(ok, "R14.10", cfun.qualname, c, loc(cfun, c),
+                  "the report is not reached for NaN: every ordering comparison with NaN is false, so a rejection written as "
+                  "`cf <= 0` lets `conversionFactor=nan` through as a valid factor",
+                  desc="NaN takes the reporting branch")
+
+    # ---------------- R14.11: the character pass sees every entry, so attribute values may be the flag value True
+    ctx.rule("R14.11", "term/description validators run on every entry guard the str use of a raw attribute value")
+    from sa.null import check_nullable
+    cic = sv.methods.get("check_invalid_chars")
+    if cic is None:
+        raise AnalysisError("anchor SchemaValidator.check_invalid_chars vanished")
+    slot = set()
+    for a in walk_no_nested(cic.node):
+        if isinstance(a, ast.Assign):
+            vals = a.value.values if isinstance(a.value, ast.Dict) else [a.value]
+            for e in vals:
+                r = prog.resolve_expr(e, cic.module, sv) if isinstance(e, (ast.Name, ast.Attribute)) else None
+                if isinstance(r, FunctionInfo):
+                    slot.add(r)
+    ctx.floor("R14.11", "validators placed in the character pass", len(slot), 5)
+    scope11 = [f for f in cg.reachable(sorted(slot, key=lambda f: f.qualname), STRONG_KINDS)
+               if f.module.name.startswith("hed.schema.schema_validation_util")]
+
+    def raw_attr(fi, node):
+        if isinstance(node, ast.Call) and call_name(node) == "get" and isinstance(node.func, ast.Attribute) \
+                and norm(node.func.value).endswith(".attributes"):
+            return "an attribute written without a value is stored as True"
+        return None
+    n11 = check_nullable(ctx, "R14.11", scope11, raw_attr, "raw attribute values in the character pass",
+                         what="need not be a string", test="isinstance test")
+    ctx.floor("R14.11", "raw attribute reads in the character pass", n11, 1)
+
+
+def _unpack_names(node):
+    t = node.targets[0] if isinstance(node, ast.Assign) else None
+    return [e.id if isinstance(e, ast.Name) else None for e in t.elts] if isinstance(t, (ast.Tuple, ast.List)) else []
+
+
+def _nan_outcomes(test, fvars):
+    """Truth values a test can take when every variable in fvars holds NaN (unknown leaves: both)."""
+    both = {True, False}
+    if isinstance(test, ast.UnaryOp) and isinstance(test.op, ast.Not):
+        return {not x for x in _nan_outcomes(test.operand, fvars)}
+    if isinstance(test, ast.BoolOp):
+        outs = [_nan_outcomes(v, fvars) for v in test.values]
+        res = set()
+        if isinstance(test.op, ast.Or):
+            if any(True in o for o in outs):
+                res.add(True)
+            if all(False in o for o in outs):
+                res.add(False)
+            if any(o == {True} for o in outs):
+                res.discard(False)
+        else:
+            if all(True in o for o in outs):
+                res.add(True)
+            if any(False in o for o in outs):
+                res.add(False)
+            if any(o == {False} for o in outs):
+                res.discard(True)
+        return res
+    if isinstance(test, ast.Compare) and len(test.ops) == 1:
+        names = {x.id for x in ast.walk(test) if isinstance(x, ast.Name)}
+        if names & fvars:
+            op = test.ops[0]
+            if isinstance(op, (ast.Lt, ast.LtE, ast.Gt, ast.GtE, ast.Eq)):
+                return {False}
+            if isinstance(op, ast.NotEq):
+                return {True}
+    if isinstance(test, ast.Call):
+        cn = call_name(test)
+        if test.args and isinstance(test.args[0], ast.Name) and test.args[0].id in fvars:
+            if cn == "isnan":
+                return {True}
+            if cn in ("isfinite",):
+                return {False}
+            if cn == "isinstance" and "float" in norm(test.args[1]):
+                return {True}
+    return both
